@@ -589,8 +589,13 @@ package internals
 //@   pure
 //@   loop for.loop#1
 //@     invariant rv_caniface(refVal) && (dyn(rv_iface(refVal)) != 0 || rv_canaddr(refVal))
+//@     invariant top_nil_not_yet_passed: rv_isnil(rv_of(x)) ==> refVal == rv_of(x)
+//@     invariant at_most_one_step_when_pointee_is_no_pointer: rv_kind(rv_elem(rv_of(x))) != 22 ==> (refVal == rv_of(x) || refVal == rv_elem(rv_of(x)))
 //@   ensures result == unwrapped(x)
 //@   ensures istype(result, DpFactory) ==> istype(x, DpFactory)
+//@   ensures[C06,C14] checked_non_pointers_pass_through: rv_kind(rv_of(x)) != 22 ==> result == x
+//@   ensures[C06,C04] checked_nil_pointer_has_nothing_behind_it: rv_kind(rv_of(x)) == 22 && rv_isnil(rv_of(x)) ==> result == nil
+//@   ensures[C14] checked_one_level_pointer_is_its_pointee: rv_kind(rv_of(x)) == 22 && !rv_isnil(rv_of(x)) && rv_kind(rv_elem(rv_of(x))) != 22 ==> result == rv_iface(rv_elem(rv_of(x)))
 
 // ---- built-in predicates (C20): each closure decides exactly its documented predicate.
 //@ specfun deepeq(Iface, Iface) Bool
